@@ -261,6 +261,10 @@ class from_tcp(Source):
         from tornado.tcpserver import TCPServer
         from tornado.iostream import StreamClosedError
 
+        if self.stopped:
+            # stopped again before the loop got round to opening the server
+            return
+
         class EmitServer(TCPServer):
             source = self
 
@@ -279,8 +283,9 @@ class from_tcp(Source):
 
     def stop(self):
         if not self.stopped:
-            self.server.stop()
-            self.server = None
+            if self.server is not None:
+                self.server.stop()
+                self.server = None
             self.stopped = True
 
 
@@ -321,6 +326,10 @@ class from_http_server(Source):
         from tornado.web import Application, RequestHandler
         from tornado.httpserver import HTTPServer
 
+        if self.stopped:
+            # stopped again before the loop got round to opening the server
+            return
+
         class Handler(RequestHandler):
             source = self
 
@@ -338,8 +347,9 @@ class from_http_server(Source):
     def stop(self):
         """Shutdown HTTP server"""
         if not self.stopped:
-            self.server.stop()
-            self.server = None
+            if self.server is not None:
+                self.server.stop()
+                self.server = None
             self.stopped = True
 
 
